@@ -130,6 +130,10 @@ func getFilteredCodeSet(codeSet *OpcodeSet, query *FieldQuery) (*OpcodeSet, erro
 
 type Compiler struct {
 	structTypeToCode map[uintptr]*StructCode
+	// struct types whose embedded fields are being collected ( the chain of embedding above the current struct )
+	embedding map[uintptr]bool
+	// the next struct to compile is an embedded field: its fields are inlined, so it cannot be a recursive reference
+	forEmbedded bool
 }
 
 func newCompiler() *Compiler {
@@ -620,8 +624,11 @@ func (c *Compiler) mapValueCode(typ *runtime.Type) (Code, error) {
 
 func (c *Compiler) structCode(typ *runtime.Type, isPtr bool) (*StructCode, error) {
 	typeptr := uintptr(unsafe.Pointer(typ))
-	if code, exists := c.structTypeToCode[typeptr]; exists {
-		derefCode := *code
+	forEmbedded := c.forEmbedded
+	c.forEmbedded = false
+	outerCode, inProgress := c.structTypeToCode[typeptr]
+	if inProgress && !forEmbedded {
+		derefCode := *outerCode
 		derefCode.isRecursive = true
 		return &derefCode, nil
 	}
@@ -634,7 +641,26 @@ func (c *Compiler) structCode(typ *runtime.Type, isPtr bool) (*StructCode, error
 	fields := []*StructFieldCode{}
 	for i, tag := range tags {
 		isOnlyOneFirstField := i == 0 && fieldNum == 1
+		embedded := toElemType(runtime.Type2RType(tag.Field.Type))
+		isEmbedded := tag.Field.Anonymous && !tag.IsTaggedKey && embedded.Kind() == reflect.Struct
+		if isEmbedded && (embedded == typ || c.embedding[uintptr(unsafe.Pointer(embedded))]) {
+			// a struct type contributes its fields once along a chain of embedding
+			// ( type T struct { A int; *T } has the field A and nothing else ), as in encoding/json
+			continue
+		}
+		outer := c.embedding
+		if isEmbedded {
+			c.embedding = map[uintptr]bool{typeptr: true}
+			for k := range outer {
+				c.embedding[k] = true
+			}
+		} else {
+			c.embedding = nil
+		}
+		c.forEmbedded = isEmbedded
 		field, err := c.structFieldCode(code, tag, isPtr, isOnlyOneFirstField)
+		c.forEmbedded = false
+		c.embedding = outer
 		if err != nil {
 			return nil, err
 		}
@@ -672,7 +698,11 @@ func (c *Compiler) structCode(typ *runtime.Type, isPtr bool) (*StructCode, error
 	if !code.disableIndirectConversion && !indirect && isPtr {
 		code.enableIndirect()
 	}
-	delete(c.structTypeToCode, typeptr)
+	if inProgress {
+		c.structTypeToCode[typeptr] = outerCode
+	} else {
+		delete(c.structTypeToCode, typeptr)
+	}
 	return code, nil
 }
 
